@@ -166,3 +166,55 @@ def verify_C05():
     rep.obligations, rep.results = obls, res
     rep.solve_s = time.time() - t0
     return rep
+
+
+def verify_SLOW():
+    """C15: icontract.SLOW == __debug__ and ICONTRACT_SLOW set to a non-empty string -- the module-level assignment of
+    _globals.py evaluated symbolically with __debug__ and the environment as symbolic inputs."""
+    import ast
+    from pyvc.engine import Executor
+    from pyvc.base import vbool, V, B, strref
+    rep = TheoremReport("C15.SLOW", [])
+    tree, src = extract.module_ast("_globals.py")
+    node = next((n for n in tree.body if isinstance(n, ast.Assign) and ast.unparse(n.targets[0]) == "SLOW"), None)
+
+    class _U:
+        def describe(s):
+            import hashlib
+            return {"unit": "_globals.py::<module>.SLOW", "ast_sha256": hashlib.sha256(ast.dump(node).encode()).hexdigest() if node else None, "dropped": []}
+    rep.unit = _U()
+    if node is None:
+        rep.error = "unsupported: no module-level assignment to SLOW in _globals.py"
+        return rep
+    DEBUG = z3.Bool("__debug__")
+    ENV_SET = z3.Function("environ_has", I, B)
+    ENV_VAL = z3.Function("environ_value", I, I)
+
+    class Spec:
+        calls = {}
+
+        def __init__(s):
+            def getenv(ex, st, n, args, kwargs):
+                key = args[0].t
+                default = ex.to_ref(st, args[1]) if len(args) > 1 else NONE
+                return [(st, V("ref", z3.If(ENV_SET(key), ENV_VAL(key), default)))]
+            s.calls = {"os.environ.get": getenv}
+    ex = Executor("_globals.SLOW", Spec(), REG)
+    ex.unit_node = node
+    st = State()
+    st.ctr = fresh("ctr0")
+    st.time = fresh("t0")
+    st.vars["__debug__"] = vbool(DEBUG)
+    key = strref("ICONTRACT_SLOW")
+    obls = []
+    try:
+        for s, v in ex.eval(st, node.value):
+            for s2, b in ex.truth(s, v):
+                want = z3.And(DEBUG, ENV_SET(key), ENV_VAL(key) != strref(""))
+                obls.append(Obligation("theorem:C15/SLOW_iff_debug_and_ICONTRACT_SLOW_non_empty", s2.pc, b == want, "theorem", {"path": list(s2.path)}))
+    except Exception as e:
+        rep.error = "unsupported: %s" % e
+        return rep
+    rep.obligations = obls + ex.obls
+    rep.results = solve.discharge_all(rep.obligations, REG.specfuns, fuel=1)
+    return rep
